@@ -79,6 +79,25 @@ def classify_operand(ty):
     return ty
 
 
+def _back(fn, local):
+    """locals `local` is a plain copy / reborrow / deref / Deref::deref of (transitively)"""
+    seen, work = set(), [local]
+    while work:
+        l = work.pop()
+        if l is None or l in seen:
+            continue
+        seen.add(l)
+        for d in rules.defs_of(fn, l):
+            if d[0] == "assign":
+                rv = d[4]
+                pl = op_place(rv["use"]) if "use" in rv else (rv.get("ref") or rv.get("raw") or (op_place(rv["op"]) if "cast" in rv else None))
+                if pl:
+                    work.append(pl["l"])
+            elif d[4].matches(tuple(rules.TRANSPARENT)) and d[4].args:
+                work.append(op_local(d[4].args[0]))
+    return seen
+
+
 def run(ctx, rep):
     F = ctx.facts("default", ["bytecode", "compiler"])
     forms = ctx.rules("const_forms.json")
@@ -184,22 +203,100 @@ def run(ctx, rep):
                         detail = "the flag paired with ReassignmentPath::Ident is not Ident::is_const(root)"
     rep.ob("C10.guard", "re-assignment: the const flag of an identifier root is Ident::is_const(root)", "ok" if okflag else "violated", detail, pp.span,
            fn=pp.path, key="C10.guard|reassign-flag-source")
-    # postfix steps carry the flag unchanged
+    # postfix steps never clear the flag; a field step on a module-typed object sets it
+    tl = F.adt("compiler::ast::r#type::TypeLayout")
+    mod_i = [i for i, v in enumerate(tl["variants"]) if v["name"] == "Module"]
+    if len(mod_i) != 1:
+        raise AnchorMissing("TypeLayout::Module variant")
+    mod_i = str(mod_i[0])
     carried = True
     n_post = 0
+    mod_step = None
+    why = ""
     for g in cls:
         if g in prim:
             continue
+        # locals holding the incoming flag: copies of field 2 of the unwrapped `lhs` tuple
+        inflag = {}
+        for bi, si, dst, rv, s in g.assigns():
+            pl = op_place(rv.get("use")) if "use" in rv else None
+            if pl and g.locals[dst["l"]] == "bool" and pl.get("p") and pl["p"][-1][0] == "field" and pl["p"][-1][1] == 2:
+                inflag[dst["l"]] = True
+        inflag = g.derived(list(inflag)) if inflag else {}
+        false_edges = set()
+        for bb, t_t, f_t, pol in rules.bool_switches(g, inflag):
+            if pol is not None:
+                false_edges.add((bb, f_t if pol else t_t))
+        live_when_set = g.reachable(0, removed_edges=false_edges)
         for bi, si, dst, rv, s in g.assigns():
             if "agg" in rv and rv["agg"]["k"] == "tuple" and len(rv["ops"]) == 3 and g.locals[dst["l"]].count("bool"):
                 src = [d for d in rules.defs_of(g, op_local(rv["ops"][0])) if d[0] == "assign" and "agg" in d[4]] if op_local(rv["ops"][0]) is not None else []
-                if any(d[4]["agg"].get("v") in ("Index", "DotLookup") for d in src):
-                    n_post += 1
-                    tp = rules.trace_paths(g, op_local(rv["ops"][2]), transparent={rules.TRY_BRANCH}) if op_local(rv["ops"][2]) is not None else None
-                    if tp is None or not all(fs and fs[-1] == "2" for (_, fs) in tp):
+                kinds = {d[4]["agg"].get("v") for d in src}
+                if not kinds & {"Index", "DotLookup"}:
+                    continue
+                n_post += 1
+                fl = op_local(rv["ops"][2])
+                if fl is None:
+                    carried = False
+                    why = "the flag of a postfix step is a constant"
+                    continue
+                # every definition of the outgoing flag that can execute while the incoming flag is set is that flag or `true`
+                work, seen, defs = [fl], set(), []
+                while work:
+                    l = work.pop()
+                    if l in seen:
+                        continue
+                    seen.add(l)
+                    for d in rules.defs_of(g, l):
+                        if d[0] == "assign" and "use" in d[4] and op_local(d[4]["use"]) is not None and not (op_place(d[4]["use"]) or {}).get("p"):
+                            work.append(op_local(d[4]["use"]))
+                        defs.append((l, d))
+                for l, d in defs:
+                    if l in inflag:
+                        continue
+                    if d[0] != "assign":
+                        if d[1] in live_when_set:
+                            carried = False
+                            why = "the outgoing flag comes from a call while the incoming flag is set"
+                        continue
+                    rvd = d[4]
+                    if "use" in rvd and "const" in rvd["use"]:
+                        if rvd["use"]["const"].get("int") != "1" and d[1] in live_when_set:
+                            carried = False
+                            why = "bb%d clears the flag although the incoming flag may be set" % d[1]
+                    elif "use" in rvd and op_local(rvd["use"]) is not None and not (op_place(rvd["use"]) or {}).get("p"):
+                        pass
+                    elif d[1] in live_when_set:
                         carried = False
-    rep.ob("C10.guard", "re-assignment: index / field steps carry the root's const flag unchanged", "ok" if carried and n_post >= 2 else "violated",
-           "%d postfix steps found" % n_post, pp.span, fn=pp.path, key="C10.guard|reassign-flag-carried")
+                        why = "bb%d recomputes the flag although the incoming flag may be set" % d[1]
+                if "DotLookup" in kinds:
+                    # the object's type is tested for TypeLayout::Module and that edge sets the flag
+                    mod_step = False
+                    for bb2, blk in enumerate(g.blocks):
+                        t = blk["t"]
+                        if t["k"] != "switch" or mod_i not in dict(t["targets"]):
+                            continue
+                        dl = op_local(t["discr"])
+                        base = None
+                        for s_ in blk["s"]:
+                            if "d" in s_ and s_["d"]["l"] == dl and "discr" in s_["rv"]:
+                                base = s_["rv"]["discr"]["l"]
+                        if base is None or "TypeLayout" not in g.locals[base]:
+                            continue
+                        oc = rules.origin_calls(g, base, transparent=rules.TRANSPARENT | {rules.TRY_BRANCH,
+                                "compiler::ast::r#type::TypeLayout::disregard_distractors", "compiler::ast::r#type::TypeLayout::get_type_recursively",
+                                "compiler::ast::r#type::TypeLayout::assume_type_of_self", "compiler::VecErr::to_err_vec", "compiler::CompilationError::details", "compiler::CompilationError::details_lazy_message"})
+                        if not any(c.matches("compiler::ast::reassignment::ReassignmentPath::for_type") or c.matches("IntoType>::for_type") for c in oc):
+                            continue
+                        tgt = dict(t["targets"])[mod_i]
+                        sets = [d for l, d in defs if d[0] == "assign" and d[1] == tgt and "use" in d[4] and "const" in d[4]["use"] and d[4]["use"]["const"].get("int") == "1"]
+                        if sets:
+                            mod_step = True
+    rep.ob("C10.guard", "re-assignment: index / field steps never clear the const flag of the path walked so far", "ok" if carried and n_post >= 2 else "violated",
+           "%d postfix steps found. %s" % (n_post, why), pp.span, fn=pp.path, key="C10.guard|reassign-flag-carried")
+    rep.ob("C10.guard", "re-assignment: a field step taken on a module (through any alias of it) marks the path const",
+           "ok" if mod_step else ("undecided" if mod_step is None else "violated"),
+           "" if mod_step else "`n = m` followed by `n.export = v` rebinds a member the module exports", pp.span, fn=pp.path, key="C10.guard|reassign-module-step")
 
     # compound assignment and ?=
     ft = [f for f in F.find("compiler::ast::math_expr::Expr::for_type")]
@@ -269,6 +366,40 @@ def run(ctx, rep):
                     unwrap_tested = True
     rep.ob("C10.guard", "`a ?= e`: the const test on the root of the target also covers ?=", "ok" if unwrap_tested else "violated", "", ft.span,
            fn=ft.path, key="C10.guard|unwrap")
+    # compound assignment to a field of a module-typed object (an alias of an imported module)
+    mod_op = False
+    n_mod_sw = 0
+    opreg = set()
+    for c in isop:
+        opreg |= ft.reachable(c.bb)
+    dot_locals = set()
+    for bi, si, dst, rv, s in ft.assigns():
+        pl = op_place(rv.get("use")) if "use" in rv else (rv.get("ref") if "ref" in rv else None)
+        if pl and any(e[0] == "downcast" and e[1] == "DotLookup" for e in pl.get("p", [])):
+            dot_locals.add(dst["l"])
+    for bb2, blk in enumerate(ft.blocks):
+        t = blk["t"]
+        if t["k"] != "switch" or mod_i not in dict(t["targets"]) or bb2 not in opreg:
+            continue
+        dl = op_local(t["discr"])
+        base = None
+        for s_ in blk["s"]:
+            if "d" in s_ and s_["d"]["l"] == dl and "discr" in s_["rv"]:
+                base = s_["rv"]["discr"]["l"]
+        if base is None or "TypeLayout" not in ft.locals[base]:
+            continue
+        oc = rules.origin_calls(ft, base, transparent=rules.TRANSPARENT | {rules.TRY_BRANCH,
+                "compiler::ast::r#type::TypeLayout::disregard_distractors", "compiler::ast::r#type::TypeLayout::get_type_recursively"})
+        rec = [c for c in oc if c.matches("compiler::ast::math_expr::Expr::for_type")]
+        # the typed expression is the object of a DotLookup target: its receiver comes out of a downcast to Expr::DotLookup
+        if not any(c.args and op_local(c.args[0]) is not None and _back(ft, op_local(c.args[0])) & dot_locals for c in rec):
+            continue
+        n_mod_sw += 1
+        tgt = dict(t["targets"])[mod_i]
+        if all(g_.bb not in ft.reachable(tgt) for g_ in gots):
+            mod_op = True
+    rep.ob("C10.guard", "compound assignment / ?= to a field of a module (through any alias of it) is rejected", "ok" if mod_op else "violated",
+           "%d tests of the object type against TypeLayout::Module under is_op_assign" % n_mod_sw, ft.span, fn=ft.path, key="C10.guard|opassign-module-step")
     rt = F.fn("compiler::ast::math_expr::Expr::root_ident")
     if rt is not None:
         ea = F.adt("compiler::ast::math_expr::Expr")
